@@ -14,8 +14,9 @@ from session import tla_val   # noqa: E402
 
 ASSUME = ['the value -> yabgp dict rendering of harness/wire_map.py (documented input/output forms of Update.construct / Update.parse)',
           'TLC/SANY, CommunityModules Json/IOUtils', 'bounded value pools of spec/WireUpdate.tla (boundary values per field); not a proof about the Python code']
-FAMILIES = {'C06': ['upd'], 'C08': ['upd', 'updap', 'openrt', 'notif', 'rr', 'ka'], 'C09': ['upd', 'updvar', 'updap', 'cor'],
-            'C14': ['open', 'openrt', 'notif', 'rr', 'ka'], 'C17': ['comm']}
+FAMILIES = {'C06': ['upd'], 'C08': ['upd', 'updap', 'openrt', 'notif', 'rr', 'ka', 'mp_ipv6', 'mp_lu4', 'mp_lu6', 'mp_vpn4', 'mp_vpn6', 'mp_evpn', 'mp_fs'], 'C09': ['upd', 'updvar', 'updap', 'cor'],
+            'C14': ['open', 'openrt', 'notif', 'rr', 'ka'], 'C17': ['comm'],
+            'C07': ['mp_ipv6', 'mp_lu4', 'mp_lu6', 'mp_vpn4', 'mp_vpn6', 'mp_evpn', 'mp_fs']}
 CACHE = os.path.join(os.path.dirname(HERE), '.cache')
 
 
@@ -91,7 +92,7 @@ def run(prop, tier, seed):
             payload = {'property': prop, 'kind': 'codec-vector', 'clause': r['clause'], 'signature': sig, 'vector': vecs[r['tid']],
                        'result': {k: d.get(k) for k in ('raised', 'none', 'rt_ok', 'dec_ok', 'dec_err', 'diff', 'ddiff')},
                        'impl_hex': bytes(d.get('impl', d.get('bin', []))).hex(), 'ref_hex': bytes(d.get('ref', [])).hex(), 'text': d.get('text')}
-            v.reject(r['clause'], sig, payload, (d.get('diff') or d.get('ddiff') or '')[:200])
+            v.reject(r['clause'], sig, payload, ((d.get('ddiff') if r['clause'].endswith('decode') else d.get('diff')) or '')[:200])
         # binding self-test: flip one octet of a recorded encoding / one flag -> must be rejected
         ok = False
         for line in open(nd):
@@ -106,9 +107,9 @@ def run(prop, tier, seed):
                 rj, _ = validate(p, {prop})
                 ok = any(x['clause'].startswith(prop) for x in rj)
                 break
-            if d['kind'] in ('upd', 'notif') and d['impl'] and d['rt_ok'] and d['dec_ok']:
+            if d['kind'] in ('upd', 'notif', 'mp') and d['impl'] and d['rt_ok'] and d['dec_ok']:
                 bad = dict(d)
-                if prop in ('C06', 'C14'):
+                if prop in ('C06', 'C14', 'C07'):
                     bad['rt_ok'] = False
                 elif prop == 'C08':
                     bad['impl'] = list(d['impl'])
